@@ -44,6 +44,12 @@ class SymPacked:
     def __hash__(self):
         raise Unsupported("hash(SymPacked) at a C boundary")
 
+    def __getitem__(self, i):
+        raise Unsupported("slicing the packed bytes of a symbolic float")
+
+    def __iter__(self):
+        raise Unsupported("iterating the packed bytes of a symbolic float")
+
 
 def _round(x: SymFloat, code):
     if code == "d":
